@@ -75,6 +75,20 @@ func enclosingThenConds(par map[ast.Node]ast.Node, n ast.Node) []ast.Expr {
 		if is, ok := par[cur].(*ast.IfStmt); ok && cur == ast.Node(is.Body) {
 			out = append(out, is.Cond)
 		}
+		// the body of `case cond:` in a tagless switch runs only when cond holds
+		if cc, ok := par[cur].(*ast.CaseClause); ok && len(cc.List) == 1 {
+			if sw, ok := par[par[cc]].(*ast.SwitchStmt); ok && sw.Tag == nil {
+				inBody := false
+				for _, s := range cc.Body {
+					if ast.Node(s) == cur {
+						inBody = true
+					}
+				}
+				if inBody {
+					out = append(out, cc.List[0])
+				}
+			}
+		}
 		if _, ok := par[cur].(*ast.FuncDecl); ok {
 			break
 		}
